@@ -105,29 +105,39 @@ def seed_variation(unit_res, seed):
     return flips
 
 
-def mutation_selftest(prop, workdir):
-    res = {"killed": [], "survived": [], "not_applicable": []}
-    scratch = os.path.join(workdir, "mutant_repo")
-    for mname, m in mutants.for_property(prop):
-        if os.path.exists(scratch):
-            shutil.rmtree(scratch)
-        os.makedirs(scratch)
+def _one_mutant(args):
+    prop, workdir, k, mname, m = args
+    scratch = os.path.join(workdir, "mutant_repo_%d" % k)
+    work = os.path.join(workdir, "mutant_work_%d" % k)
+    for d in (scratch, work):
+        if os.path.exists(d):
+            shutil.rmtree(d)
+    os.makedirs(scratch)
+    try:
         shutil.copytree(os.path.join(vdrv.REPO, "src"), os.path.join(scratch, "src"))
-        ok = mutants.apply(m, scratch)
-        if not ok:
-            res["not_applicable"].append(mname)
-            continue
-        env = dict(os.environ, VERIF_REPO=scratch, VERIF_TIER="quick", VERIF_NO_EVIDENCE="1")
+        if not mutants.apply(m, scratch):
+            return ("not_applicable", mname, None)
+        env = dict(os.environ, VERIF_REPO=scratch, VERIF_TIER="quick", VERIF_NO_EVIDENCE="1", VERIF_WORK=work)
         r = subprocess.run([os.path.join(vdrv.VERIF, "check"), prop, "--tier", "quick"], env=env, stdout=subprocess.PIPE, stderr=subprocess.PIPE, text=True)
         verdict = {0: "survived", 1: "killed"}.get(r.returncode, "undecided(exit %d)" % r.returncode)
         ob = re.findall(r"FAILED-OBLIGATION property=\S+ (\S+)", r.stdout)
-        entry = {"mutant": mname, "verdict": verdict, "failed_obligations": ob[:4]}
-        if r.returncode == 1:
-            res["killed"].append(entry)
-        else:
-            res["survived"].append(entry)
-    if os.path.exists(scratch):
-        shutil.rmtree(scratch)
+        return ("killed" if r.returncode == 1 else "survived", mname, {"mutant": mname, "verdict": verdict, "failed_obligations": ob[:4]})
+    finally:
+        for d in (scratch, work):
+            shutil.rmtree(d, ignore_errors=True)
+
+
+def mutation_selftest(prop, workdir):
+    """every mutant gets its own scratch copy of /repo/src and its own work directory; four at a time"""
+    from concurrent.futures import ThreadPoolExecutor
+    res = {"killed": [], "survived": [], "not_applicable": []}
+    jobs = [(prop, workdir, k, mname, m) for k, (mname, m) in enumerate(mutants.for_property(prop))]
+    with ThreadPoolExecutor(max_workers=int(os.environ.get("VERIF_MUTANT_JOBS", "4"))) as ex:
+        for kind, mname, entry in ex.map(_one_mutant, jobs):
+            if kind == "not_applicable":
+                res["not_applicable"].append(mname)
+            else:
+                res[kind].append(entry)
     return res
 
 
